@@ -101,7 +101,10 @@ fn gen_frame(r: &mut Rng, region: RegionId) -> FrameSpec {
             }
             let k = if full { 0 } else { r.below(4) };
             for _ in 0..k {
-                macs.push(match r.below(5) {
+                macs.push(match r.below(7) {
+                    // requests that are refused in every respect: their answers end in a zero status byte
+                    5 => MacSpec::NewChannel { idx: 6, freq: 1, drrange: 0xF0 },
+                    6 => MacSpec::LinkAdr { dr: 14, pow: 14, mask: 0, ctl: 0, nbtrans: 0 },
                     0 => MacSpec::DevStatus,
                     1 => MacSpec::RxTimingSetup { del: r.below(16) as u8 },
                     2 => MacSpec::RxParamSetup { rx1off: 9 % 8, rx2dr: 15, freq: 1 },
@@ -229,6 +232,17 @@ impl Property for C20 {
             ops.insert(at, Op::SaveRestore);
         }
         for _ in 0..2 {
+            ops.push(gen_send(&mut r, false));
+        }
+        if cfg.otaa && r.chance(1, 4) {
+            // a restored session that is then replaced by a new join
+            let mut t = Txn::default();
+            let mut ja = gen_ja(&mut r, cfg.region, false);
+            ja.dl_settings = crate::refregion::rx2_default(cfg.region).1;
+            t.rx1.push(FrameSpec::JoinAccept(ja));
+            ops.push(Op::Join(t));
+            ops.push(gen_send(&mut r, false));
+            ops.push(Op::SaveRestore);
             ops.push(gen_send(&mut r, false));
         }
         MacCase { cfg, ops, knob: 0 }
